@@ -42,11 +42,11 @@ COMMON = ["-g", "-O1", "-I" + REPO, "-I" + REPO + "/dispenso/third-party", "-I" 
           "-D" + GUARD, "-pthread", "-fno-omit-frame-pointer", "-Wno-deprecated-declarations"]
 
 VARIANTS = {
-    "dsched": dict(cxx="clang++", std="c++14", flags=TSAN_ATOMICS + SMALL_TUNE, link=[], dsched=True),
-    "dschedD": dict(cxx="clang++", std="c++14", flags=TSAN_ATOMICS, link=[], dsched=True),
-    "dsched17": dict(cxx="clang++", std="c++17", flags=TSAN_ATOMICS + SMALL_TUNE, link=[], dsched=True),
-    "native": dict(cxx="g++", std="c++14", flags=[], link=[], dsched=False),
-    "native17": dict(cxx="g++", std="c++17", flags=[], link=[], dsched=False),
+    "dsched": dict(cxx="clang++", std="c++14", flags=TSAN_ATOMICS + SMALL_TUNE + ["-DVF_E1"], link=[], dsched=True),
+    "dschedD": dict(cxx="clang++", std="c++14", flags=TSAN_ATOMICS + ["-DVF_E1"], link=[], dsched=True),
+    "dsched17": dict(cxx="clang++", std="c++17", flags=TSAN_ATOMICS + SMALL_TUNE + ["-DVF_E1"], link=[], dsched=True),
+    "native": dict(cxx="clang++", std="c++14", flags=[], link=[], dsched=False),
+    "native17": dict(cxx="clang++", std="c++17", flags=[], link=[], dsched=False),
     "asan": dict(cxx="clang++", std="c++14",
                  flags=["-fsanitize=address,undefined", "-fno-sanitize-recover=undefined"],
                  link=["-fsanitize=address,undefined"], dsched=False),
@@ -190,15 +190,25 @@ def build_harness(name, variant, src=None, extra_flags=(), extra_link=(), fine_t
         d = os.path.join(BUILD, variant, "bin")
         os.makedirs(d, exist_ok=True)
         out = os.path.join(d, name)
-        deps = [src] + [os.path.join(VERIF, "engine/common", f) for f in sorted(os.listdir(os.path.join(VERIF, "engine/common")))
-                        if f.endswith(".h")] + [os.path.join(VERIF, "harness", f) for f in sorted(os.listdir(os.path.join(VERIF, "harness"))) if f.endswith(".h")]
+        # optional extra translation units (compiled in parallel): harness/<name>_parts/*.cpp
+        pdir = os.path.join(VERIF, "harness", name + "_parts")
+        parts = sorted(os.path.join(pdir, f) for f in os.listdir(pdir) if f.endswith(".cpp")) if os.path.isdir(pdir) else []
+        hdir = os.path.join(VERIF, "harness")
+        deps = [src] + parts + [os.path.join(VERIF, "engine/common", f) for f in sorted(os.listdir(os.path.join(VERIF, "engine/common")))
+                                if f.endswith(".h")] + [os.path.join(hdir, f) for f in sorted(os.listdir(hdir)) if f.endswith(".h")]
         key = rh + file_hash(deps) + " ".join(extra_flags) + " ".join(extra_link) + file_hash([os.path.join(d, "..", "engine", "stamp")])
         stamp = out + ".stamp"
         if read(stamp) == key and os.path.exists(out):
             return out
-        obj = out + ".o"
-        run([v["cxx"], "-std=" + v["std"]] + COMMON + v["flags"] + list(extra_flags) + ["-c", src, "-o", obj])
-        run([v["cxx"], obj] + engobjs + libobjs + v["link"] + ["-pthread", "-ldl"] + list(extra_link) + ["-o", out])
+        hflags = [f for f in COMMON if f != "-g"] + ["-g1"]  # line tables only: template-heavy TUs compile much faster
+        jobs = []
+        objs = []
+        for i, sfile in enumerate([src] + parts):
+            obj = out + (".o" if i == 0 else ".p%d.o" % i)
+            objs.append(obj)
+            jobs.append([v["cxx"], "-std=" + v["std"]] + hflags + v["flags"] + list(extra_flags) + ["-c", sfile, "-o", obj])
+        compile_many(jobs)
+        run([v["cxx"]] + objs + engobjs + libobjs + v["link"] + ["-pthread", "-ldl"] + list(extra_link) + ["-o", out])
         with open(stamp, "w") as f:
             f.write(key)
         sys.stderr.write("[vbuild] %s/%s built in %.1fs\n" % (variant, name, time.time() - t0))
